@@ -1160,7 +1160,10 @@ class TrigInfo:
                             except asyncio.TimeoutError:
                                 actual_now = dt_now()
                                 if actual_now < time_next:
-                                    timeout = (time_next - actual_now).total_seconds()
+                                    timeout = (
+                                        dt_util.as_local(time_next).astimezone(dt_util.UTC)
+                                        - dt_util.as_local(actual_now).astimezone(dt_util.UTC)
+                                    ).total_seconds()
                                     continue
                                 now = time_next
                                 if not state_trig_timeout:
